@@ -182,7 +182,7 @@ def calls(t, probes, extra_weids=(999983,), lite=False):
     yield C("get_webentities_outlinks_iter", lambda h: canon(drain(t.get_webentities_outlinks_iter(), h)))
     yield C("links_metrics", lambda h: canon(t.links_metrics()))
     # metrics() divides by the number of stems: only defined on a non-empty trie
-    if t.lru_trie_storage.count_blocks() > 1:
+    if pages or wes:
         yield C("metrics", lambda h: canon(t.metrics()))
 
 
